@@ -179,7 +179,13 @@ func c01exec(c *h.Ctx, cs *h.Case) {
 			e.wantTok[m] = fix.TokenKey(token(t, m))
 			e.mu.Unlock()
 			root := e.trees[t].Root
-			env, err := fix.Envelope(root.ServerIdentity, fix.TokenFor(e.trees[t], root, e.rounds[t][m%2]), token(t, m), fix.Payload(3, m))
+			to := token(t, m)
+			if m >= 1000 {
+				// a message whose token names no node of the tree: TransmitMsg answers it with an error
+				to = to.Clone()
+				to.TreeNodeID = onet.TreeNodeID(uuid.New())
+			}
+			env, err := fix.Envelope(root.ServerIdentity, fix.TokenFor(e.trees[t], root, e.rounds[t][m%2]), to, fix.Payload(3, m))
 			if err != nil {
 				panic(err)
 			}
@@ -384,6 +390,12 @@ func c01exec(c *h.Ctx, cs *h.Case) {
 	sort.Ints(ms)
 	for _, m := range ms {
 		t := e.treeOf[m]
+		if m >= 1000 {
+			if e.handedN[m] > 0 {
+				cs.Fail("wrong-instance", fmt.Sprintf("message %d names no node of the tree and was handed to an instance", m))
+			}
+			continue
+		}
 		if e.handedN[m] > 1 {
 			cs.Fail("duplicated", fmt.Sprintf("message %d was handed over %d times", m, e.handedN[m]))
 		} else if e.handedN[m] == 0 && e.ov.VerifPendingCount(e.trees[t].ID) == 0 {
@@ -403,6 +415,8 @@ func c01gen(c *h.Ctx, yield func(*h.Case)) {
 		"c01 arrive 0 8", "c01 respond 0", "c01 flush 0", "c01 thread 0 8", "c01 thread 0 8"}})
 	yield(&h.Case{Class: "corpus-expire", Ops: []string{"c01 localset 0", "c01 flush 0", "c01 arrive 0 1", "c01 expire 0", "c01 arrive 0 2", "c01 thread 0 2", "c01 thread 0 2",
 		"c01 thread 0 2", "c01 thread 0 2", "c01 thread 0 2", "c01 respond 0", "c01 flush 0", "c01 arrive 0 3", "c01 expire 0", "c01 expire 0"}})
+	yield(&h.Case{Class: "corpus-refused-then-good", Ops: []string{"c01 arrive 0 1001", "c01 arrive 0 2", "c01 thread 0 1001", "c01 thread 0 1001", "c01 thread 0 1001",
+		"c01 thread 0 1001", "c01 thread 0 1001", "c01 thread 0 2", "c01 thread 0 2", "c01 thread 0 2", "c01 respond 0", "c01 flush 0"}})
 	yield(&h.Case{Class: "corpus-round", Ops: []string{"c01 arrive 0 1", "c01 arrive 0 2", "c01 arrive 1 3", "c01 thread 0 1", "c01 thread 0 1", "c01 thread 0 1", "c01 thread 0 1", "c01 thread 0 1",
 		"c01 thread 0 2", "c01 thread 0 2", "c01 thread 0 2", "c01 respond 0", "c01 flush 0", "c01 arrive 0 4"}})
 	for n := 0; n < c.Pick(150, 3000); n++ {
@@ -419,9 +433,13 @@ func c01gen(c *h.Ctx, yield func(*h.Case)) {
 				if r.Intn(4) == 0 {
 					t = 1
 				}
-				tree[m] = t
-				live = append(live, m)
-				cs.Ops = append(cs.Ops, fmt.Sprintf("c01 arrive %d %d", t, m))
+				id := m
+				if r.Intn(6) == 0 {
+					id = 1000 + m // a message of a run that this server will refuse
+				}
+				tree[id] = t
+				live = append(live, id)
+				cs.Ops = append(cs.Ops, fmt.Sprintf("c01 arrive %d %d", t, id))
 			case x < 14 && len(live) > 0:
 				k := live[r.Intn(len(live))]
 				cs.Ops = append(cs.Ops, fmt.Sprintf("c01 thread %d %d", tree[k], k))
